@@ -311,12 +311,49 @@ def gen_inputs(universe, thorough, seed):
         for u in ["new", "newX", "usrZZ", "usr", "$BOB", "$HUGE"]:
             for stt in ["", "ok", "suspended", "deleted", "undef", "zzz"]:
                 add(st, "mut", BASES["acc"][0], "acc.user/status", [{"path": ["acc", "user"], "val": u}, {"path": ["acc", "status"], "val": stt}], dem="reply")
+    # (a3) seeded random multi-field mutants: 1-3 random fields of a random well-formed message get random values of any JSON type
+    pool = [None, True, False, 0, 1, -1, 2**31, 2**53, -2**63, 1.5, "", "x", "zz", "me", "fnd", "sys", "new", "nch", "$GRP", "$CAROL", "$BOB", "$HUGE", " ", "␡",
+            [], [1], ["x"], [[]], {}, {"a": 1}, {"what": "desc"}, {"mode": "JRWPS"}, {"user": "$CAROL"}, {"limit": -1}, {"low": 1, "hi": 0}, [{"low": 1, "hi": 2**31}],
+            "desc sub data del tags cred", "topic", "msg", "sub", "user", "cred", "call", "read", "recv", "kp", "data", "ringing", "accept", "hang-up", "basic", "token", "code", "reset",
+            "root", "auth", "anon", "JRWPASDO", "N", "text/x-drafty", {"txt": "x", "fmt": [{"at": -1, "len": 9, "key": 3}]}, b64(b"alice:pw"), b64(bytes(50))]
+    kinds = sorted(BASES)
+    for r in range(25000 if thorough else 1500):
+        kind = rng.choice(kinds)
+        base, _ = BASES[kind]
+        st = rng.choice(STATES)
+        muts, wrong = [], False
+        for _ in range(rng.randint(1, 3)):
+            if rng.random() < 0.2:
+                fld = rng.choice(sorted(FIELDS["extra"]))
+                path, ty = ["extra", fld], FIELDS["extra"][fld]
+            else:
+                fld = rng.choice(sorted(FIELDS[kind]))
+                path, ty = [kind, fld], FIELDS[kind][fld]
+            val = rng.choice(pool)
+            muts.append({"path": path, "val": val})
+            # does the Go decoder reject this value for this field type?  (null is always accepted)
+            okv = val is None or ty == "a" or {
+                "s": isinstance(val, str), "i": isinstance(val, int) and not isinstance(val, bool), "b": isinstance(val, bool),
+                "y": False, "S": isinstance(val, list) and all(isinstance(x, str) for x in val),
+                "o": isinstance(val, dict), "O": isinstance(val, list) and all(isinstance(x, dict) for x in val), "m": isinstance(val, dict)}[ty]
+            if ty == "y" and val is not None:
+                okv = None   # base64 or not, array of small numbers or not: do not predict
+            if ty in ("o", "O") and okv:
+                okv = None   # nested fields have types of their own
+            if okv is False:
+                wrong = True
+            elif okv is None and not wrong:
+                wrong = None
+        if wrong is True:
+            add(st, "mut", base, "random:%s:wrongtype" % kind, muts, dem="err", stage="pre")
+        else:
+            add(st, "mut", base, "random:%s" % kind, muts, dem="none" if (kind == "note" or wrong is None) else "reply", stage="any")
     # (b) byte strings
-    for lbl, b, dem in raw_inputs(rng, 600 if thorough else 120):
+    for lbl, b, dem in raw_inputs(rng, 3000 if thorough else 120):
         for st in (["fresh", "auth", "rootatt"] if thorough else ["fresh", "auth"]):
             add(st, "raw", dict(BLANK), "raw:" + lbl.split("-")[0], raw=b, dem=dem, stage="pre")
     # Drafty contents published to the group / the p2p topic (and rendered by the push payload code, see preview_inputs)
-    contents = drafty_contents(rng, 1500 if thorough else 150)
+    contents = drafty_contents(rng, 4000 if thorough else 150)
     for lbl, c in contents:
         for st, tp in [("authatt", "$GRP"), ("authatt", "$CAROL")] + ([("rootatt", "$GRP")] if thorough else []):
             add(st, "drafty", BASES["pub"][0], "drafty:" + lbl.split("-")[0],
